@@ -35,6 +35,8 @@ func NewStore(kind string, root *Node, t Tree) (Store, error) {
 	switch kind {
 	case "rs":
 		return &rsStore{root: root, data: CloneTree(t)}, nil
+	case "rs-lenient":
+		return &rsStore{root: root, data: CloneTree(t), lenient: true}, nil
 	case "reflect-map", "reflect-slice", "node-map", "node-slice":
 		slices := kind == "reflect-slice" || kind == "node-slice"
 		nat, err := toNativeContainer(root, t, slices, true)
@@ -83,12 +85,17 @@ func (s *readerStore) KeepsOrder() bool        { return true }
 func (s *readerStore) ZeroIsUnset() bool       { return false }
 
 type rsStore struct {
-	root *Node
-	data Tree
+	root    *Node
+	data    Tree
+	lenient bool
 }
 
-func (s *rsStore) Kind() string            { return "rs" }
-func (s *rsStore) Node() node.Node         { return NewRS(s.root, s.data) }
+func (s *rsStore) Kind() string { return "rs" }
+func (s *rsStore) Node() node.Node {
+	r := NewRS(s.root, s.data)
+	r.Lenient = s.lenient
+	return r
+}
 func (s *rsStore) Snapshot() (Tree, error) { return CloneTree(s.data), nil }
 func (s *rsStore) KeepsOrder() bool        { return true }
 func (s *rsStore) ZeroIsUnset() bool       { return false }
